@@ -7,6 +7,7 @@ finalised; the method-line part of the run (node state transitions, Marks, UOD c
 the reference run. With a live edit after the injection only the injected code itself is judged. See DESIGN.md C14."""
 from __future__ import annotations
 
+import gc
 import random
 import re
 
@@ -46,7 +47,7 @@ LONG_N = 4
 
 
 def plan(tier, seed):
-    n = 640 if tier == "quick" else 9600
+    n = 640 if tier == "quick" else 6400
     shards = 16 if tier == "quick" else 64
     return [{"seed": seed * 1000003 + 104729 * i + 5, "n": n // shards, "step": 2 if tier == "quick" else 1,
              "max_depth": 3 if tier == "quick" else 4} for i in range(shards)]
@@ -147,6 +148,8 @@ def run_once(text: str, traj, ticks: int, inject=None, edit=None):
         return rec
     finally:
         rig.close()
+        del rig
+        gc.collect()     # finalise this run's interpreter generators now (their clean-up must not leak into the next TRACE)
 
 
 def _neg(node_id) -> bool:
